@@ -27,7 +27,7 @@ Inductive xval :=
 | XText (s : str)
 | XArr (l : list xval)
 | XObj (def : option xval) (props : list (str * xval))
-| XErr.
+| XErr (msg_len : Z).   (* an error value; the length of its message counts for the render size *)
 
 (* strings *)
 Fixpoint str_ltb (a b : str) : bool :=
@@ -87,8 +87,8 @@ Fixpoint of_json (j : json) : xval :=
   match j with
   | JNull => XNil
   | JBool b => XBool b
-  | JNum m e => if exp_ok e then XNum (Dec m e) else XErr
-  | JStr s => if str_ok s then XText s else XErr
+  | JNum m e => if exp_ok e then XNum (Dec m e) else XErr 25      (* "number value out of range" *)
+  | JStr s => if str_ok s then XText s else XErr 26        (* "unknown JSON parsing error" *)
   | JArr l => XArr (map of_json l)
   | JObj kv => mk_object (build_props (map (fun p => (fst p, of_json (snd p))) kv) [])
   end.
@@ -119,8 +119,49 @@ Fixpoint to_json (x : xval) : option json :=
                   | Some d => match to_json d with Some j => sinsert default_key j marshaled | None => marshaled end
                   | None => marshaled
                   end))
-  | XErr => None
+  | XErr _ => None
   end.
 
+(* ------------------------------------------------------------------------------------------------ *)
+(* excellent/types/base.go CheckRenderSize / spendSize (indent = 0): the size a value is charged before it is
+   converted to text or JSON: 1 + depth for every value, the UTF-8 bytes of texts and property names, BitLen/3 +
+   |exponent| for a number, the length of the message for an error value; the default of an object is charged at the
+   object's depth, its properties one deeper (for text only when there is no default).  Every charge is >= 0, so the
+   walk's early exits do not change the verdict: the conversion is refused iff the total exceeds MaxRenderSize. *)
+Definition max_render_size : Z := 1000000.
+
+Definition utf8_len (c : N) : Z :=
+  if (c <? 128)%N then 1 else if (c <? 2048)%N then 2 else if (c <? 65536)%N then 3 else 4.
+Definition str_bytes (s : str) : Z := fold_right (fun c n => (utf8_len c + n)%Z) 0%Z s.
+
+Definition bit_len (m : Z) : Z := if (m =? 0)%Z then 0%Z else (Z.log2 (Z.abs m) + 1)%Z.
+Definition num_size (d : dec) : Z := (bit_len (mant d) / 3 + Z.abs (dexp d))%Z.
+
+(* [dc] is the charge per level of nesting: 1 in the limit as first committed (1fba51e), 0 once nesting is no longer
+   charged; the driver measures it on the code on every run (types.SpendRenderSize on [[]]) and passes it to the cases *)
+Fixpoint render_size (dc : Z) (as_json : bool) (depth : Z) (x : xval) : Z :=
+  (1 + dc * depth +
+   match x with
+   | XNil | XBool _ => 0
+   | XText s => str_bytes s
+   | XErr n => n
+   | XNum d => num_size d
+   | XArr l => fold_right (fun v n => render_size dc as_json (depth + 1) v + n) 0 l
+   | XObj def props =>
+       (match def with Some d => render_size dc as_json depth d | None => 0 end)
+       + (if (match def with Some _ => false | None => true end) || as_json
+          then (fix go (l : list (str * xval)) : Z :=
+                  match l with
+                  | [] => 0
+                  | (k, v) :: r => str_bytes k + render_size dc as_json (depth + 1) v + go r
+                  end) props
+          else 0)
+   end)%Z.
+
+Definition render_ok (dc : Z) (as_json : bool) (x : xval) : bool := (render_size dc as_json 0 x <=? max_render_size)%Z.
+
+(* ToXJSON at top level: the size check, then the writer *)
+Definition to_json_checked (dc : Z) (x : xval) : option json := if render_ok dc true x then to_json x else None.
+
 (* json(parse_json(doc)) *)
-Definition json_roundtrip (j : json) : option json := to_json (of_json j).
+Definition json_roundtrip (dc : Z) (j : json) : option json := to_json_checked dc (of_json j).
